@@ -9,6 +9,8 @@ Exit status: 0 held, 1 violation (with VIOLATION line), 2 tool error / timeout /
 """
 import json, os, re, shutil, subprocess, sys, time, hashlib
 
+sys.setrecursionlimit(20000)      # deeply nested syntax trees in recorded traces
+
 ROOT = os.path.dirname(os.path.dirname(os.path.abspath(__file__)))
 SPEC = os.path.join(ROOT, "spec")
 HARNESS = os.path.join(ROOT, "harness")
